@@ -3,7 +3,7 @@ from __future__ import annotations
 
 from .. import models as M
 from .. import rulespace as RS
-from ..drive import eval_rule, make_evaluable, reuse_aware, warmup
+from ..drive import eval_rule, evaluable_for, make_evaluable, reuse_aware, warmup
 
 ID = "C01"
 MOD = __name__
@@ -70,10 +70,12 @@ def check_pair(tree, imports, rule, ev, impl_rule=None) -> dict:
 @reuse_aware
 def check_case(spec: dict) -> dict:
     tree, imports, rule = spec["tree"], [tuple(e) for e in spec["imports"]], spec["rule"]
-    ev = make_evaluable(tree, imports)
+    ev = evaluable_for(spec)
     res = check_pair(tree, imports, spec.get("model_rule", rule), ev, rule)
     if "model_rule" in spec:
         res["labels"].append("regex-form-of-a-named-side")
+    if spec.get("full_tree"):
+        res["labels"].append("flattened-by-level-limit")
     return res
 
 
